@@ -43,7 +43,7 @@ pub fn mutate(rng: &mut Rng, text: &str) -> String {
     let mut cs: Vec<char> = text.chars().collect();
     let nmut = rng.range(0, 3);
     for _ in 0..nmut {
-        match rng.below(9) {
+        match rng.below(11) {
             0 => {
                 // truncate (a document while being typed)
                 let at = rng.below(cs.len() + 1);
@@ -94,6 +94,15 @@ pub fn mutate(rng: &mut Rng, text: &str) -> String {
                 let tail = cs.split_off(at);
                 cs.extend(w);
                 cs.extend(tail);
+            }
+            9 | 10 => {
+                // turn a single space into whitespace made of several tokens
+                let spaces: Vec<usize> = cs.iter().enumerate().filter(|(_, c)| **c == ' ').map(|(i, _)| i).collect();
+                if !spaces.is_empty() {
+                    let at = *rng.pick(&spaces);
+                    let rep: Vec<char> = rng.pick(&[" \n", "\n ", "\t ", " \t ", "  ", " \n ", "\n"]).chars().collect();
+                    cs.splice(at..at + 1, rep);
+                }
             }
             _ => {
                 // digits glued to letters
